@@ -12,3 +12,31 @@ func hasOuterQuant(e *SpecEnv) bool {
 	}
 	return false
 }
+
+// refTerms lists the reference-valued leaves of v (pointers, maps, slice backing arrays).
+func refTerms(v *SVal) []string {
+	var out []string
+	var rec func(v *SVal)
+	rec = func(v *SVal) {
+		if v == nil {
+			return
+		}
+		switch kindOf(v.T) {
+		case KSlice:
+			if v.F != nil && v.F[0].Term != "" {
+				out = append(out, v.F[0].Term)
+			}
+			return
+		case KPtr, KMap:
+			if v.Term != "" {
+				out = append(out, v.Term)
+			}
+			return
+		}
+		for _, f := range v.F {
+			rec(f)
+		}
+	}
+	rec(v)
+	return out
+}
